@@ -415,6 +415,43 @@ func (r *c33Remoting) RelocateBatch(ctx context.Context, host string, port int, 
 	return proto.Clone(out).(*internalpb.RelocateBatchResponse), nil
 }
 
+// RemoteSpawn: only the request spawnSingletonOnLeader issues (a singleton spawn forwarded to the
+// coordinator) is supported; the target does what the singleton branch of the real remote-spawn handler
+// does: instantiate the registered kind and call SpawnSingleton with the carried spec.
+func (r *c33Remoting) RemoteSpawn(ctx context.Context, host string, port int, req *remote.SpawnRequest) (*string, error) {
+	target := r.nodeAt(port)
+	if target == nil || host != c33Host || target.stopped || r.w.isDown(target.idx) {
+		return nil, errC33Transport
+	}
+	if req.Singleton == nil {
+		return nil, errors.New("c33: RemoteSpawn of a non-singleton is not supported by the transport stub")
+	}
+	actor, err := target.sys.reflection.instantiateActor(req.Kind)
+	if err != nil {
+		return nil, err
+	}
+	opts := []ClusterSingletonOption{
+		WithSingletonSpawnTimeout(req.Singleton.SpawnTimeout),
+		WithSingletonSpawnWaitInterval(req.Singleton.WaitInterval),
+		WithSingletonSpawnRetries(int(req.Singleton.MaxRetries)),
+	}
+	if req.Supervisor != nil {
+		opts = append(opts, WithSingletonSupervisor(req.Supervisor))
+	}
+	pid, err := target.sys.SpawnSingleton(ctx, req.Name, actor, opts...)
+	if err != nil {
+		return nil, err
+	}
+	id := pid.ID()
+	return &id, nil
+}
+
+func (w *c33World) isDown(idx int) bool {
+	w.mu.Lock()
+	defer w.mu.Unlock()
+	return w.down[idx]
+}
+
 func (r *c33Remoting) RemoteAsk(ctx context.Context, _, to *address.Address, message any, timeout time.Duration) (any, error) {
 	if r.askFn == nil {
 		return nil, gerrors.ErrRemoteSendFailure
